@@ -481,7 +481,7 @@ def o4_2_database_iterator(mir, tier):
     # long runs of entries the iterator has to step over (a "skip ahead after k entries" shortcut lives there); few patterns
     DEEP = [(11, (10, 1))]
     DEEP_PATTERNS = [['first', 'next'], ['seek', 'next'], ['last', 'prev']]
-    all_shapes = [(n, comp, patterns) for n in range(1, E_MAX + 1) for comp in compositions(n)] + [(n, comp, DEEP_PATTERNS) for n, comp in DEEP]
+    all_shapes = [(n, comp, DEEP_PATTERNS) for n, comp in DEEP] + [(n, comp, patterns) for n in range(1, E_MAX + 1) for comp in compositions(n)]      # deep stacks first: the thorough tier has a time budget
     if True:
         for n, comp, patterns in all_shapes:
             w = World(mir)
@@ -525,6 +525,11 @@ def o4_2_database_iterator(mir, tier):
             S['$patterns'][r'DatabaseIterator::sample_read_stats_for_current_key'] = lib.unit
             S['$patterns'][r'<Vec<u8> as Clone>::clone'] = lib.clone_deep
             for pat in patterns:
+                if tier != 'quick' and time.time() - t0 > 5400:
+                    # thorough tier: all 750 patterns over 15 groupings did not finish in 50 minutes when measured; what is not explored is listed
+                    key_ = 'patterns not explored (time budget of 5400 s), grouping %s' % (comp,)
+                    res.cases[key_] = res.cases.get(key_, 0) + 1
+                    continue
                 ex = Exec(mir, S, loop_bound=n + 4)
                 it = mir.mk_struct('DatabaseIterator', db_state={'abstract': True}, compaction_worker='worker', direction=Enum('Forward', (), 'DbIterationDirection'),
                                    inner_iter=absiter.make([(keys[i], vals[i]) for i in range(n)]), sequence_snapshot=snap, is_valid=BoolVal(False), rng='rng', distribution='dist',
